@@ -116,13 +116,15 @@ CLAIMED.update({
 
 CLAIMED.update({
     "C04": dict(
-        technique="Lean 4 proof (shell-lexer round trip of shlex.quote by induction over the name; wipe decision logic) + three-way correspondence (real PathCleaner, Lean scan/exec model, survivor specification) incl. exhaustive small trees; scripts executed by sh and bash",
+        technique="Lean 4 proof (shell-lexer round trip of shlex.quote by induction over the name; wipe decision logic; mutual induction over the directory tree: both queues of the recursive scan equal the survivor specification) + three-way correspondence (real PathCleaner, Lean scan/exec model, survivor specification) incl. exhaustive small trees; scripts executed by sh and bash",
         text=("C04_quote_roundtrip and C04_script_equiv (the shell reads the generated script as exactly the intended rm commands, for every "
-              "file name and any number of entries), C04_wipe_decision, C04_empty_tree_allowed, C04_kept_not_queued, C04_symlink_kept are "
+              "file name and any number of entries), C04_files_exact / C04_folders_exact / C04_symlink_never_queued (for every tree with distinct "
+              "sibling names, keep set and depth the unlink queue is exactly the unkept regular files and the rmdir queue exactly the non-root "
+              "directories without kept content or symlinks), C04_wipe_decision, C04_empty_tree_allowed, C04_kept_not_queued, C04_symlink_kept are "
               "proved; the recursive scan model, its execution and the property's survivor predicate are compared with the real "
               "PathCleaner.clean() on random trees with hostile names/symlinks/keep sets/ratios and on all trees with <= 3 (thorough: 4) "
               "nodes; generated scripts are run by /bin/sh and bash and must produce the autoclean tree."),
-        note="PARTIAL: the agreement of the recursive scan with the survivor specification is checked (random + exhaustive small trees), not proved. Float vs exact ratio comparison assumed equal below 2^50 bytes. Trusted: Lean kernel, model, harness, real sh/bash for script execution.",
+        note="Not proved (checked by executing the queues): that the post-order rmdir queue never meets a non-empty directory. Float vs exact ratio comparison assumed equal below 2^50 bytes. Trusted: Lean kernel, model, harness, real sh/bash for script execution.",
         design="6/C04"),
 })
 
